@@ -150,6 +150,8 @@ class Call:
             self.impl_trait = body.fix(fn['impl_trait']) if 'impl_trait' in fn else None
             self.resolved_id = fn.get('resolved_id')
             self.resolved = body.fix(fn['resolved']) if 'resolved' in fn else None
+            if fn.get('self_closure') and self.trait in ('std::ops::FnOnce', 'std::ops::FnMut', 'std::ops::Fn') and not self.resolved_id:
+                self.resolved_id = fn['self_closure']
             p = strip_generics(body.fix(fn['path']))
             if self.trait:
                 self.qname = strip_generics(self.trait) + '::' + self.name
@@ -793,6 +795,13 @@ class Guard:
         table = self.body.facts.enum_table(self.extra)
         if table is None:
             return None
+        if self.extra.endswith('ControlFlow') and self.origins and all(o.kind == 'call' and o.key in self.body.calls and not o.path for o in self.origins):
+            # `x?`: Try::branch is value-preserving for ORIG, so the subject is the call that produced the Option / Result
+            heads = {type_head(self.body.calls[o.key].dest_ty) for o in self.origins}
+            if heads == {'std::option::Option'}:
+                table = {0: 'Some', 1: 'None'}
+            elif heads == {'std::result::Result'}:
+                table = {0: 'Ok', 1: 'Err'}
         if self.value == 'otherwise':
             return frozenset(n for d, n in table.items() if d not in self.listed)
         n = table.get(self.value)
